@@ -606,5 +606,101 @@ class PoolEnum(Suite):
         return info
 
 
-SUITES = [Histories(), PoolEnum()]
-KNOWN = {}
+NESTED = ['/a', '/a/b', '/a/b/c', '/{t}', '/{t}/b', '/{t}/b/{c:int}', '/a/{g}', '/a/b/{h}/d']
+NESTED_FINDS = ['/a/b', '/a/b/c', '/x/b/7', '/a']
+
+
+class NestedHistories(Suite):
+    """Exhaustive histories over a family of 8 NESTED templates (each a prefix / ancestor / sibling of others, literal and
+    field variants): every ordered selection of <= 3 (thorough: <= 4) of them, with lookups between the adds in every
+    possible pattern (after which adds the router is used, i.e. compiled), then all representative paths.  A route added
+    late below, above or beside routes that have already been used must be found exactly like in a router that got all
+    of them up front."""
+
+    name = 'nested_histories'
+    exhaustive = True
+    budget = {'quick': 1, 'thorough': 1}
+    cap = 4000
+
+    def cases(self, tier):
+        kmax = 3 if tier == 'quick' else 4
+        for k in range(2, kmax + 1):
+            for sel in itertools.permutations(range(len(NESTED)), k):
+                for mask in range(1, 2 ** (k - 1)):  # lookups after add i (i < k-1) when bit i is set; at least one
+                    yield {'sel': list(sel), 'mask': mask}
+
+    def run(self, case):
+        ops = []
+        for i, t in enumerate(case['sel']):
+            ops.append(['add', NESTED[t], False])
+            if case['mask'] >> i & 1:
+                ops.extend(['find', p] for p in NESTED_FINDS)
+        info, n = run_history({'ops': ops}, self.cap)
+        return Info(True, list(info.labels) + ['adds:%d' % len(case['sel']), 'used_between_adds'])
+
+
+def _deep_template(kind, n, tail=''):
+    if kind == 'fields':
+        segs = ['{f%d}' % i for i in range(n)]
+    elif kind == 'literals':
+        segs = ['s%d' % i for i in range(n)]
+    else:
+        segs = [('{f%d}' % i) if i % 2 else ('s%d' % i) for i in range(n)]
+    return '/' + '/'.join(segs) + tail
+
+
+def _deep_path(kind, n):
+    if kind == 'fields':
+        segs = ['v%d' % i for i in range(n)]
+    elif kind == 'literals':
+        segs = ['s%d' % i for i in range(n)]
+    else:
+        segs = [('v%d' % i) if i % 2 else ('s%d' % i) for i in range(n)]
+    return '/' + '/'.join(segs)
+
+
+class Deep(Suite):
+    """Depth beyond the moderate range: templates of 1-96 field segments, 1-47 literal segments and mixtures of up to 63 (and,
+    recorded as finding F34, deeper ones: the generated finder nests one or two blocks per segment and CPython refuses
+    source with more than 100 levels of indentation), alone, next to a template that is three segments
+    deeper and with a trailing path converter; lookups of paths one shorter, equal, one longer and five longer."""
+
+    name = 'deep'
+    exhaustive = True
+    budget = {'quick': 1, 'thorough': 1}
+    cap = 300
+
+    def cases(self, tier):
+        for kind, depths in (('fields', (1, 8, 31, 32, 33, 63, 64, 65, 66, 70, 90, 93, 130)), ('literals', (8, 31, 32, 33, 44, 60)),
+                             ('mixed', (9, 33, 59, 60, 120))):
+            for n in depths:
+                for shape in ('alone', 'with_deeper', 'path_tail'):
+                    yield {'kind': kind, 'n': n, 'shape': shape}
+
+    def run(self, case):
+        kind, n, shape = case['kind'], case['n'], case['shape']
+        ops = [['add', _deep_template(kind, n, '/{rest:path}' if shape == 'path_tail' else ''), False]]
+        if shape == 'with_deeper':
+            ops.append(['add', _deep_template(kind, n + 3), False])
+        for m in (n - 1, n, n + 1, n + 3, n + 5):
+            if m > 0:
+                ops.append(['find', _deep_path(kind, m)])
+        ops.append(['find', _deep_path(kind, n) + '/'])
+        try:
+            info, _n = run_history({'ops': ops}, self.cap)
+        except Violation as v:
+            d = v.detail
+            raise Violation(v.kind, '%s ... %s\n  compact case=%r' % (d[:200], d[-500:], case))
+        return Info(True, ['kind:' + kind, 'depth:%s' % ('<=32' if n <= 32 else '<=64' if n <= 64 else '>64'), 'shape:' + shape])
+
+
+
+SUITES = [Histories(), PoolEnum(), NestedHistories(), Deep()]
+
+
+def _known_f34(suite_name, case, violation):
+    """F34: a template so deep that the generated finder exceeds CPython's 100 levels of indentation."""
+    return 'IndentationError: too many levels of indentation' in violation.detail
+
+
+KNOWN = {'F34': _known_f34}
